@@ -4,3 +4,4 @@ import SmtpV.Props.C13
 #print axioms SmtpV.Props.C13.C13_model_is_spec
 #print axioms SmtpV.Props.C13.C13_contract_agrees
 #print axioms SmtpV.Props.C13.C13_attribution
+#print axioms SmtpV.Props.C13.C13_failed_last_one_per_recipient
